@@ -11,7 +11,8 @@ open Sshuttle.Wrap
 /-! ### views of a flow inside the world -/
 
 def goneSrc (ever : Bool) (out : List Frame) (consumed : Bytes) : SrcV :=
-  { present := false, ever := ever, buf := [], shutR := true, mwShutW := true, out := out, consumed := consumed }
+  { present := false, ever := ever, buf := [], shutR := true, mwShutW := true, ownShutW := ever, out := out,
+    consumed := consumed }
 
 def goneSink (ever : Bool) (e : ESock) : SinkV :=
   { present := false, ever := ever, buf := [], mwShutR := true, swShutW := true, ok := false,
@@ -222,7 +223,7 @@ theorem WInv.actC {w : World} (hw : WInv w) (hn : (chans w).Nodup) (i : Nat) (f 
       refine ⟨?_, ?_, ?_, hfi.schan⟩
       · have hu := hfi.up
         simp only [upSrc, hc] at hu
-        have := hu.srcStar (by rw [← hpc]; exact hok.1.src)
+        have := hu.srcStar (by rw [← hpc]; exact srcStar_lift _ hok.1.src)
         simpa [upSrc, upSink] using this
       · have hd := hfi.down
         simp only [downSink, hc] at hd
@@ -269,7 +270,7 @@ theorem WInv.actS {w : World} (hw : WInv w) (hn : (chans w).Nodup) (i : Nat) (f 
         simpa [upSrc, upSink] using this
       · have hd := hfi.down
         simp only [downSrc, hc] at hd
-        have := hd.srcStar (by rw [← hpc]; exact hok.1.src)
+        have := hd.srcStar (by rw [← hpc]; exact srcStar_lift _ hok.1.src)
         simpa [downSrc, downSink] using this
       · intro q hq
         simp only [Option.some.injEq] at hq
@@ -411,10 +412,11 @@ theorem FlowOK.fresh (cm sm cm' : MuxL) (c : Nat) (p : ProxyS)
     rw [hcm, hasEof_append, hasEof_noStream c _ h1]; simp [hasEof, hce]
   refine ⟨?_, ?_, ?_, ?_⟩
   · refine { pre := ?_, exact := ?_, shutOk := ?_, conn := ?_, fresh := ?_, clean := ?_, eofNM := ?_,
-             gone := ?_, dead := ?_, srcBuf := ?_, snkBuf := ?_, srcEv := ?_, snkEv := ?_, goneShut := ?_ }
+             gone := ?_, dead := ?_, srcBuf := ?_, snkBuf := ?_, srcEv := ?_, snkEv := ?_, goneShut := ?_,
+             nl1 := ?_, stopOk := ?_ }
     all_goals simp only [upSrc, upSink, SV, goneSink]
     · exact List.prefix_refl _
-    · right; exact ⟨[], by simp [hdo], by simp⟩
+    · right; simp [hdo]
     · intro h; cases h
     · intro _; exact ⟨trivial, by rw [hcm]; exact connectAhead_of_noStream c _ [] h1⟩
     · intro h; cases h
@@ -429,11 +431,18 @@ theorem FlowOK.fresh (cm sm cm' : MuxL) (c : Nat) (p : ProxyS)
     · intro _; trivial
     · intro h; cases h
     · intro h; cases h
+    · intro _ _ h; cases h
+    · intro hh
+      have hcs : isStop c ⟨c, CONNECT, []⟩ = false := by
+        simp [isStop]; exact fun h => absurd h.symm cmds_distinct.2.2.2.2.2
+      rw [hcm, hasStop_append, hasStop_noStream c _ h1] at hh
+      simp [hasStop, hcs] at hh
   · refine { pre := ?_, exact := ?_, shutOk := ?_, conn := ?_, fresh := ?_, clean := ?_, eofNM := ?_,
-             gone := ?_, dead := ?_, srcBuf := ?_, snkBuf := ?_, srcEv := ?_, snkEv := ?_, goneShut := ?_ }
+             gone := ?_, dead := ?_, srcBuf := ?_, snkBuf := ?_, srcEv := ?_, snkEv := ?_, goneShut := ?_,
+             nl1 := ?_, stopOk := ?_ }
     all_goals simp only [downSrc, downSink, KV, goneSrc]
     · exact List.prefix_refl _
-    · right; exact ⟨[], by simp [dataOf_noStream c _ h2], by simp⟩
+    · right; simp [dataOf_noStream c _ h2]
     · intro _ h; cases h
     · intro h; cases h
     · intro _; exact ⟨trivial, trivial, h2⟩
@@ -446,6 +455,8 @@ theorem FlowOK.fresh (cm sm cm' : MuxL) (c : Nat) (p : ProxyS)
     · intro h; cases h
     · intro _; trivial
     · intro _ h; cases h
+    · intro _ h; cases h
+    · intro hh; rw [hasStop_noStream c _ h2] at hh; cases hh
   · intro q hq
     simp only [Option.some.injEq] at hq
     subst hq; exact ⟨rfl, rfl⟩
